@@ -5,9 +5,15 @@ T=$1; L=$2; N=$3; shift 3
 if [ -z "$VERIF_KNOWN" ]; then
   export VERIF_KNOWN=$(python3 -c "import json; print(','.join(f['key'] for f in json.load(open('/verif/known_findings.json'))['findings'] if f['status']=='known' and f['key'] not in '${VERIF_UNKNOWN}'.split(',')))")
 fi
+MODFLAG=""
+if [ -n "$VERIF_REPO" ]; then
+  # build against another tree (a scratch worktree with a change applied)
+  mkdir -p /tmp/devroot/mod-$$; sed "s#=> /repo#=> $VERIF_REPO#" /verif/harness/go.mod > /tmp/devroot/mod-$$/go.mod; cp /verif/harness/go.sum /tmp/devroot/mod-$$/go.sum
+  MODFLAG="-modfile=/tmp/devroot/mod-$$/go.mod"
+fi
 mkdir -p /tmp/devroot/bin; ln -sfn ${VERIF_REPO:-/repo}/jobmanagers /tmp/devroot/jobmanagers; ln -sfn ${VERIF_REPO:-/repo}/adapters /tmp/devroot/adapters
 cd /verif/harness && export GOFLAGS=-mod=mod GOPROXY=off GOSUMDB=off GOTOOLCHAIN=local
-go test -tags verif -c -o /tmp/devroot/bin/run.test ./props/run || exit 2
+go test $MODFLAG -tags verif -c -o /tmp/devroot/bin/run.test ./props/run || exit 2
 rm -rf /tmp/devrun && mkdir -p /tmp/devrun
 for s in "$@"; do
   (cd /tmp/devrun && mkdir -p cwd$s && cd cwd$s && VERIF_LEVEL=$L VERIF_WORK=/dev/shm/devrun/work$s timeout 1500 /tmp/devroot/bin/run.test -test.run "$T" -rapid.checks=$N -rapid.seed=$s -rapid.shrinktime=60s > /tmp/devrun/log$s 2>&1; echo "seed $s rc=$?" >> /tmp/devrun/done) &
